@@ -302,7 +302,7 @@ pub fn gen_colours(t: &mut Tape) -> Vec<String> {
         v.push(format!("SliderBorder: {},{},{}", t.below(256), t.below(256), t.below(256)));
     }
     if t.chance(20) {
-        v.push(format!("{}: {},{},{}", t.pick(&["SliderTrackOverride", "My Colour", "x"]), t.below(256), t.below(256), t.below(256)));
+        v.push(format!("{}: {},{},{}", t.pick(&["SliderTrackOverride", "My Colour", "x", "_SliderBorder", "_x", "-x", "#c"]), t.below(256), t.below(256), t.below(256)));
     }
     v
 }
@@ -523,6 +523,8 @@ pub fn gen_accepted(t: &mut Tape, avoid: Avoid, max_objects: usize) -> Doc {
 pub const GARBAGE: &[&str] = &[
     "", "   ", "// comment", "garbage", ",,,,", ":", "::::", "[Unknown]", "[general]", "[]", "key: value", "1,2,3", "-", "\u{feff}x", "|||", "0:0:0:0:",
     "x,y,z,1,0", "NaN,NaN,NaN,1,0", "9999999999999999999999", "1e400,1e400,0,1,0", "256,192,0,12,0,99999999999", "a:b|c:d", "osu file format v14",
+    "_SliderBorder : 10,20,30", "_Combo2 : 4,5,6", "_Title:x", "_0,500,4,1,0,100,1,0", "_100,100,1000,1,0", " F,0,0,1000,1", "_F,0,0,1000,1",
+    "osu file format v1v4", "osu file format v14 v7",
     "[Variables]", "$bg=real bg.jpg", "$t=1234", "0,0,\"$bg\",0,0", "2,$t,5000", "Video,$t,\"$bg\"",
     "osu file format v-1", "Combo1: 300,0,0", "\t\t", "\u{0}", "100,100,0,2,0,B|,1,1", "100,100,0,2,0,|||,1,1", "100,100,0,2,0,B|1:1|B|2:2|B|3:3|B|4:4,1,1",
 ];
